@@ -57,6 +57,112 @@ def _get_boolean_default(func: ast.AST, key: bytes):
     raise T.TranslateError(f"get_boolean(b'core', {key!r}, default) not found")
 
 
+# ---- census of mutating call sites in the modules that touch the work tree ---------------------------------------
+CENSUS_MODULES = ["stash.py", "worktree.py", "index.py", "sparse_patterns.py", "patch.py", "merge.py", "rebase.py", "am.py", "submodule.py",
+                  "lfs.py", "filters.py", "porcelain/__init__.py", "porcelain/submodule.py", "porcelain/lfs.py", "cherry_pick.py", "revert.py",
+                  "notes.py", "bisect.py", "attrs.py", "ignore.py", "hooks.py", "archive.py", "bundle.py", "diff.py", "line_ending.py"]
+CENSUS_MUT = {"os.unlink", "os.remove", "os.rename", "os.replace", "os.symlink", "os.mkdir", "os.makedirs", "os.rmdir", "shutil.rmtree",
+              "shutil.move", "shutil.copy", "shutil.copyfile", "shutil.copy2", "shutil.copytree", "os.chmod", "os.open", "os.truncate", "os.link",
+              "ensure_dir_exists", "symlink", "_remove_file_with_readonly_handling", "_remove_empty_parents", "build_file_from_blob",
+              "_transition_to_file", "_transition_to_absent", "_transition_to_submodule", "ensure_submodule_placeholder",
+              "_ensure_parent_dir_exists", "_remove_symlink_at_target", "index.build_file_from_blob"}
+# a call that vets a work-tree path (name + symlinked leading directories) earlier in the same outermost function
+CENSUS_GUARDS = {"_checked_worktree_path", "_validate_patch_target", "_lstat_tracked_path", "verify_leading_dirs",
+                 "_check_submodule_worktree_path"}
+# Reviewed allow-list: file:function -> why an unguarded mutating call there is not a work-tree escape under C17.
+#   control   : the path lies in the control directory (.git/…) or is a temp file, built from fixed names
+#   explicit  : the path is an explicit argument of an API whose caller names it (not derived from a tree / the index)
+#   callee    : helper that acts on a path its callers vetted; its call sites are in this census themselves
+#   user-op   : rm / mv / clean act on paths the USER names or on untracked files; not a materialising operation
+#   candidate : NOT reviewed safe — unvalidated index path, needs an LFS store/server to reach; reported as a candidate
+CENSUS_ALLOW = {
+    "am.py:DiskAmStateManager._write_file": "control", "am.py:DiskAmStateManager.clean": "control", "am.py:DiskAmStateManager.save_initial": "control",
+    "attrs.py:GitAttributes.write_to_file": "explicit",
+    "bisect.py:BisectState._append_to_log": "control", "bisect.py:BisectState._find_next_commit": "control", "bisect.py:BisectState.mark_bad": "control",
+    "bisect.py:BisectState.mark_good": "control", "bisect.py:BisectState.reset": "control", "bisect.py:BisectState.skip": "control",
+    "bisect.py:BisectState.start": "control",
+    "hooks.py:CommitMsgShellHook.__init__.clean_msg": "control",
+    "index.py:_ensure_parent_dir_exists": "callee", "index.py:_remove_empty_parents": "callee", "index.py:_remove_file_with_readonly_handling": "callee",
+    "index.py:_transition_to_absent": "callee", "index.py:_transition_to_file": "callee", "index.py:_transition_to_submodule": "callee",
+    "index.py:build_file_from_blob": "callee", "index.py:symlink": "callee",
+    "lfs.py:LFSStore.create": "control", "lfs.py:LFSStore.write_object": "control",
+    "patch.py:_remove_symlink_at_target": "callee",
+    "porcelain/__init__.py:_get_worktree_update_config.symlink_fallback": "callee",
+    "porcelain/__init__.py:_get_worktree_update_config.symlink_wrapper": "callee", "porcelain/__init__.py:am": "control",
+    "porcelain/__init__.py:cherry_pick": "control", "porcelain/__init__.py:clean": "user-op", "porcelain/__init__.py:cone_mode_disable": "control",
+    "porcelain/__init__.py:init": "explicit", "porcelain/__init__.py:mailinfo": "explicit", "porcelain/__init__.py:mv": "user-op",
+    "porcelain/__init__.py:reflog_delete": "control", "porcelain/__init__.py:reflog_expire": "control", "porcelain/__init__.py:remove": "user-op",
+    "porcelain/lfs.py:lfs_migrate": "candidate", "porcelain/lfs.py:lfs_pull": "candidate",
+    "rebase.py:DiskRebaseStateManager._write_file": "control", "rebase.py:DiskRebaseStateManager.clean": "control",
+    "rebase.py:DiskRebaseStateManager.save": "control",
+    "stash.py:Stash.drop": "control", "stash.py:Stash.pop.symlink_fn": "callee",
+    "submodule.py:ensure_submodule_placeholder": "callee",
+    "worktree.py:WorkTree.reset_index.symlink_fn": "callee", "worktree.py:WorkTree.set_sparse_checkout_patterns": "control",
+    "worktree.py:add_worktree": "explicit", "worktree.py:lock_worktree": "control", "worktree.py:move_worktree": "explicit",
+    "worktree.py:prune_worktrees": "control", "worktree.py:remove_worktree": "explicit", "worktree.py:repair_worktree": "explicit",
+    "worktree.py:temporary_worktree": "explicit", "worktree.py:unlock_worktree": "control",
+}
+
+
+def _is_write_open(call: ast.Call) -> bool:
+    if isinstance(call.func, ast.Name) and call.func.id == "open":
+        m = None
+        if len(call.args) >= 2:
+            m = call.args[1].value if isinstance(call.args[1], ast.Constant) else "?w"
+        for k in call.keywords:
+            if k.arg == "mode":
+                m = k.value.value if isinstance(k.value, ast.Constant) else "?w"
+        return m is not None and any(c in str(m) for c in "wax+?")
+    return False
+
+
+def census(repo: Path):
+    """[(file, outermost function qualname, line, call, status)] for every mutating call; status = guarded | <allow category>.
+    Raises TranslateError for a call site that is neither guarded nor on the reviewed allow-list."""
+    rows, bad = [], []
+    for m in CENSUS_MODULES:
+        pth = repo / "dulwich" / m
+        if not pth.exists():
+            continue
+        tree = T.module_ast(pth)
+
+        def visit(node, stack, top):
+            for ch in ast.iter_child_nodes(node):
+                if isinstance(ch, (ast.FunctionDef, ast.AsyncFunctionDef, ast.ClassDef)):
+                    visit(ch, stack + [ch.name], top if (top is not None and not isinstance(node, ast.ClassDef)) or isinstance(ch, ast.ClassDef) else ch)
+                else:
+                    if isinstance(ch, ast.Call):
+                        f = ast.unparse(ch.func)
+                        if f in CENSUS_MUT or _is_write_open(ch):
+                            # outermost function (methods: Class.method)
+                            names, nodes_ = [], []
+                            for nm in stack:
+                                names.append(nm)
+                            # qualname up to the outermost FUNCTION
+                            rows.append((m, stack, top, ch))
+                    visit(ch, stack, top)
+        visit(tree, [], None)
+    out = []
+    for m, stack, top, ch in rows:
+        # qualname = Class.method or function (drop nested defs)
+        q = ".".join(stack) if stack else "<module>"
+        key = f"{m}:{q}"
+        guarded = False
+        if top is not None:
+            for c in ast.walk(top):
+                if isinstance(c, ast.Call) and ast.unparse(c.func).split(".")[-1] in CENSUS_GUARDS and c.lineno < ch.lineno:
+                    guarded = True
+                    break
+        status = "guarded" if guarded else CENSUS_ALLOW.get(key)
+        if status is None:
+            bad.append(f"{key}:{ch.lineno}: {ast.unparse(ch)[:70]}")
+        out.append((m, q, ch.lineno, ast.unparse(ch.func), status))
+    if bad:
+        raise T.TranslateError("mutating call site(s) neither preceded by a path check (" + "/".join(sorted(CENSUS_GUARDS)) +
+                               ") nor on the reviewed allow-list: " + "; ".join(bad[:6]))
+    return out
+
+
 def translate(repo: Path) -> dict:
     tree = T.module_ast(repo / "dulwich" / "index.py")
     dotnames = T.const_value(tree, "INVALID_DOTNAMES")
@@ -242,6 +348,46 @@ def translate(repo: Path) -> dict:
                  "f.write(b'gitdir: ' + relative_git_dir + b'\\n')"):
         if frag not in ph:
             raise T.TranslateError(f"ensure_submodule_placeholder: `{frag}` not found")
+    # change kinds: which kinds does each apply loop of update_working_tree handle, and for which does the write loop
+    # reach validate_path (+ verify_leading_dirs) before touching the disk?
+    def _kinds(test):
+        if isinstance(test, ast.Compare) and ast.unparse(test.left) == "change.type" and len(test.ops) == 1 \
+                and isinstance(test.ops[0], ast.In) and isinstance(test.comparators[0], ast.Tuple):
+            return [ast.unparse(e).replace("CHANGE_", "") for e in test.comparators[0].elts]
+        return None
+    loops = [n for n in uw.body if isinstance(n, ast.For) and ast.unparse(n.iter) == "changes" and ast.unparse(n.target) == "change"
+             and len(n.body) == 1 and isinstance(n.body[0], ast.If) and _kinds(n.body[0].test)]
+    apply_loops = [n for n in loops if any(isinstance(c, ast.Call) and ast.unparse(c.func) in ("_transition_to_absent", "_transition_to_file")
+                                           for c in ast.walk(n))]
+    if len(apply_loops) != 2:
+        raise T.TranslateError(f"update_working_tree: expected a delete loop and a write loop over `changes`, found {len(apply_loops)}")
+    del_loop, wr_loop = apply_loops
+    kinds_deleted = _kinds(del_loop.body[0].test)
+    kinds_written = _kinds(wr_loop.body[0].test)
+    if not any(isinstance(c, ast.Call) and ast.unparse(c.func) == "_transition_to_absent" for c in ast.walk(del_loop)) or \
+            not any(isinstance(c, ast.Call) and ast.unparse(c.func) == "_transition_to_file" for c in ast.walk(wr_loop)):
+        raise T.TranslateError("update_working_tree: delete/write loops not in the expected order")
+    # validated kinds: the raising validate_path must be a top-level statement of the write loop's if-body and precede every
+    # other statement that mentions full_path / calls a _transition_*; nested under a narrower kind test = only that subset
+    kinds_validated = []
+    body = wr_loop.body[0].body
+    seen_touch = False
+    for stn in body:
+        srcn = ast.unparse(stn)
+        if isinstance(stn, ast.If) and srcn.startswith("if not validate_path(path, validate_path_element):") and "raise InvalidPathError(path)" in srcn:
+            if not seen_touch:
+                kinds_validated = list(kinds_written)
+            break
+        if isinstance(stn, ast.If) and _kinds(stn.test) and "validate_path(path, validate_path_element)" in srcn and "raise InvalidPathError(path)" in srcn \
+                and not seen_touch:
+            kinds_validated = [k for k in _kinds(stn.test) if k in kinds_written]
+            break
+        if "full_path" in srcn or "_transition_to" in srcn or "os." in srcn:
+            seen_touch = True
+    vl_pos = [i for i, stn in enumerate(body) if ast.unparse(stn).startswith("verify_leading_dirs(path, ")]
+    fp_pos = [i for i, stn in enumerate(body) if "os.lstat(full_path)" in ast.unparse(stn) or "_transition_to" in ast.unparse(stn)]
+    if not vl_pos or (fp_pos and vl_pos[0] > fp_pos[0]):
+        kinds_validated = []          # the leading-directory check no longer precedes the first disk access for every kind
     # sparse checkout: step 2 of apply_included_paths validates names, guards the lstat, verifies leading dirs and writes
     # through build_file_from_blob
     sp_tree = T.module_ast(repo / "dulwich" / "sparse_patterns.py")
@@ -296,6 +442,10 @@ def translate(repo: Path) -> dict:
     for frag in ("st = os.lstat(fs_path)", "except FileNotFoundError:\n        return", "if stat.S_ISLNK(st.st_mode):\n        os.unlink(fs_path)"):
         if frag not in rs:
             raise T.TranslateError(f"_remove_symlink_at_target: `{frag}` not found")
+
+    sites = census(repo)
+    from collections import Counter
+    cen = Counter((m, q, st_) for m, q, _ln, _f, st_ in sites)
 
     def lb(b):
         return T.lean_bytes(b)
@@ -352,6 +502,19 @@ def gitlinkDirTestFollows : Bool := {str(gitlink_follows).lower()}
 /-- does step 2 of `sparse_patterns.apply_included_paths` validate names, guard its lstat, verify leading directories
 and write through `build_file_from_blob`? -/
 def sparseGuarded : Bool := {str(sparse_guarded).lower()}
+/-- `update_working_tree`: change kinds whose old path the delete loop removes / whose new entry the write loop writes /
+for which the write loop reaches the raising `validate_path` and `verify_leading_dirs` before any disk access -/
+def uwtKindsDeleted : List String := [{", ".join(json.dumps(k) for k in kinds_deleted)}]
+def uwtKindsWritten : List String := [{", ".join(json.dumps(k) for k in kinds_written)}]
+def uwtKindsValidated : List String := [{", ".join(json.dumps(k) for k in kinds_validated)}]
+/-- census of mutating call sites (os.unlink/remove/rename/symlink/mkdir/makedirs/rmdir, rmtree, open-for-write, chmod,
+build_file_from_blob, …) in the modules that touch the work tree: (file, function, status, number of sites); status =
+`guarded` (a path check precedes it in the function) or the category of the reviewed allow-list.  A site that is
+neither makes the translator fail. -/
+def censusSites : List (String × String × String × Nat) := [
+{chr(10).join("  (" + ", ".join(json.dumps(x) for x in k) + f", {n})," for k, n in sorted(cen.items()))[:-1]}]
+def censusGuardedSites : Nat := {sum(n for k, n in cen.items() if k[2] == "guarded")}
+def censusCandidateSites : Nat := {sum(n for k, n in cen.items() if k[2] == "candidate")}
 end Dulwich.Gen.PathSafe
 """
     return {"PathSafe": src}
@@ -579,7 +742,13 @@ ENTITLED = {
     "stash_pop": ("index", "refs/stash", "logs/"), "patch": ("index",), "patch_to": ("index",),
     "pull": ("index", "FETCH_HEAD") + _REFS,
     "sparse": ("index", "info/sparse-checkout", "config"),
+    "stash_push": ("index", "refs/stash", "logs/"), "stash_pop_real": ("index", "refs/stash", "logs/"),
+    "restore": ("index",),
+    "submodule_update": ("index", "config", "modules/"),
 }
+_SEQ = ("index", "MERGE_HEAD", "MERGE_MSG", "MERGE_MODE", "CHERRY_PICK_HEAD", "REVERT_HEAD", "AUTO_MERGE", "rebase-apply/", "rebase-merge/") + _REFS
+for _op in ("merge", "cherry_pick", "revert", "am"):
+    ENTITLED[_op] = _SEQ
 _RE_HEAD = re.compile(rb"^(ref: refs/[\w/.-]+|[0-9a-f]{40})\n$")
 _RE_REF = re.compile(rb"^[0-9a-f]{40}\n$")
 _RE_LOGLINE = re.compile(rb"^[0-9a-f]{40} [0-9a-f]{40} .* \d+ [+-]\d{4}(\t.*)?$")
@@ -704,7 +873,7 @@ def _write_tree(store, spec) -> bytes:
         if "tree" in e:
             sha = _write_tree(store, e["tree"])
         elif "gitlink" in e:
-            sha = b"1" * 40
+            sha = _GITLINK_SHA[0]
         else:
             b = Blob.from_string(bytes.fromhex(e["blob"] if "blob" in e else e["link"]))
             store.add_object(b)
@@ -713,6 +882,9 @@ def _write_tree(store, spec) -> bytes:
     t = ShaFile.from_raw_string(Tree.type_num, raw)
     store.add_object(t)
     return t.id
+
+
+_GITLINK_SHA = [b"1" * 40]
 
 
 def _commit(store, tree_id, parents=(), msg=b"m") -> bytes:
@@ -798,6 +970,15 @@ def impl_scenario(a):
             ids.append((tid, _commit(repo.object_store, tid)))
         return ids
 
+    _GITLINK_SHA[0] = b"1" * 40
+    if any(st["op"] == "submodule_update" for st in steps):
+        # an attacker-controlled repository the .gitmodules of the hostile trees point at (url /ABS/subsrc)
+        sub = Repo.init(os.path.join(base, "subsrc"), mkdir=True)
+        stree = _write_tree(sub.object_store, [{"n": b"payload".hex(), "m": 0o100644, "blob": b"attacker file\n".hex()},
+                                               {"n": b"hooks".hex(), "m": 0o40000, "tree": [{"n": b"x".hex(), "m": 0o100755, "blob": b"#!/bin/sh\n".hex()}]}])
+        _GITLINK_SHA[0] = _commit(sub.object_store, stree)
+        sub.refs[b"refs/heads/master"] = _GITLINK_SHA[0]
+        sub.close()
     first = steps[0]
     if first["op"] in ("clone", "clone_nc"):
         src = os.path.join(base, "src")
@@ -864,6 +1045,11 @@ def impl_scenario(a):
                         os.symlink(bytes.fromhex(pl), tgt)
                 except OSError:
                     pass      # the user could not do that on this disk state
+            for ph in st.get("stage", []):
+                try:
+                    porcelain.add(r, paths=[os.path.join(os.fsencode(wt), bytes.fromhex(ph))])
+                except Exception:
+                    pass
             res.append({"op": "user", "out": "ok", "diff": [], "wt": _wt_listing(wt), "links": [], "old_index": [], "old_head": []})
             continue
         if op == "pull" and os.path.isdir(os.path.join(base, "src")):
@@ -901,6 +1087,37 @@ def impl_scenario(a):
                 src = os.path.join(base, "src")
                 porcelain.pull(r, src, refspecs=[b"refs/heads/pullme"], force=bool(st.get("force")),
                                errstream=io.BytesIO(), outstream=io.BytesIO())
+            elif op == "stash_push":
+                porcelain.stash_push(r)
+            elif op == "stash_pop_real":
+                porcelain.stash_pop(r)
+            elif op == "restore":
+                from dulwich.object_store import iter_tree_contents
+                paths = [e.path for e in iter_tree_contents(r.object_store, commits[st["t"]][0])]
+                porcelain.restore(r, paths=paths, source=commits[st["t"]][1], staged=False, worktree=True)
+            elif op == "merge":
+                head = r.refs[b"HEAD"]
+                hp = r[head].parents
+                x = _commit(r.object_store, commits[st["t"]][0], [hp[0] if (hp and st.get("side")) else head], b"merge me")
+                porcelain.merge(r, x)
+            elif op == "cherry_pick":
+                head = r.refs[b"HEAD"]
+                x = _commit(r.object_store, commits[st["t"]][0], [head], b"pick me")
+                porcelain.cherry_pick(r, x)
+            elif op == "revert":
+                head = r.refs[b"HEAD"]
+                pc = _commit(r.object_store, commits[st["t"]][0], [], b"parent")
+                x = _commit(r.object_store, r[head].tree, [pc], b"revert me")
+                porcelain.revert(r, x)
+            elif op == "am":
+                from dulwich.patch import write_tree_diff
+                buf = io.BytesIO()
+                write_tree_diff(buf, r.object_store, r[b"HEAD"].tree, commits[st["t"]][0])
+                mbox = (b"From 0000000000000000000000000000000000000000 Mon Sep 17 00:00:00 2001\nFrom: A U Thor <a@example.com>\n"
+                        b"Date: Thu, 1 Jan 1970 00:00:00 +0000\nSubject: [PATCH] hostile\n\nbody\n---\n" + buf.getvalue() + b"-- \n2.39.5\n")
+                porcelain.am(r, io.BytesIO(mbox))
+            elif op == "submodule_update":
+                porcelain.submodule_update(r, init=True, force=bool(st.get("force")), errstream=io.BytesIO())
             elif op == "sparse":
                 porcelain.sparse_checkout(r, patterns=list(st["patterns"]), force=bool(st.get("force")), cone=False)
             elif op == "patch":
@@ -1273,6 +1490,8 @@ def _fix_abs(spec, base):
         e["n"] = _abs(bytes.fromhex(e["n"]), base).hex()
         if "link" in e:
             e["link"] = _abs(bytes.fromhex(e["link"]), base).hex()
+        if "blob" in e and bytes.fromhex(e["n"]) == b".gitmodules":
+            e["blob"] = _abs(bytes.fromhex(e["blob"]), base).hex()
         if "tree" in e:
             e["tree"] = _fix_abs(e["tree"], base)
         out.append(e)
@@ -1328,7 +1547,7 @@ def classify(step: dict, sr: dict, base: str):
         if typ == "link":
             links.setdefault(bytes.fromhex(relhex), bytes.fromhex(extra))
     op = sr["op"]
-    if op in ("reset_hard", "checkout", "pull") and removed and not changed:
+    if op in ("reset_hard", "checkout", "pull", "merge", "cherry_pick", "revert") and removed and not changed:
         old = [bytes.fromhex(p) for p in (sr["old_index"] if op == "reset_hard" else sr["old_head"])]
         allowed = set()
         for p in old:
@@ -1347,6 +1566,18 @@ def classify(step: dict, sr: dict, base: str):
                     break
         if allowed and all(os.fsencode(d[0]) in allowed for d in removed):
             return "uwt-delete-through-symlinked-leading-dir"
+    if op == "submodule_update" and diff:
+        # everything touched lies below the resolution of a gitlink path of HEAD through a work-tree symlink
+        roots = set()
+        for p in [bytes.fromhex(x) for x in sr["old_head"]]:
+            comps = p.split(b"/")
+            if any(b"/".join(comps[:k]) in links for k in range(1, len(comps) + 1)):
+                q = _resolve_rel(p, links, base)
+                if q:
+                    roots.add(q)
+        touched = [os.fsencode(d[0]) for d in diff]
+        if roots and all(any(t == q or t.startswith(q + b"/") for q in roots) for t in touched):
+            return "submodule-update-through-symlink"
     if op == "sparse" and diff:
         idx = [bytes.fromhex(p) for p in sr["old_index"]]
         by_name, by_link = set(), set()
@@ -1587,6 +1818,30 @@ def kind_collision_scenarios(triples_rng=None, n_triples=0):
     return out
 
 
+def submodule_scenarios():
+    """submodule update materialises the submodule's tree at a gitlink path of HEAD: below a symlinked leading directory,
+    at a path that is itself a symlink, and the benign case."""
+    out = []
+    def gm(path):
+        return (b".gitmodules", "f", b'[submodule "s"]\n\tpath = ' + path + b"\n\turl = /ABS/subsrc\n")
+    for T in (b"../outside_dir", b".git/canary_dir", b"sibdir"):
+        Tl = mk_tree([KEEP, (b"sibdir/f", "f", b"s\n"), gm(b"d/sub"), (b"d", "l", T)])      # .gitmodules already on disk
+        Tn = mk_tree([KEEP, (b"sibdir/f", "f", b"s\n"), gm(b"d/sub"), (b"d/sub", "g", None)])
+        Tflat = [E_blob(b"keep", b"keep\n"), E_blob(b".gitmodules", gm(b"d/sub")[2]), E_link(b"d", T), E_gitlink(b"d/sub")]
+        Tfin_l = mk_tree([KEEP, gm(b"sub"), (b"sub", "l", T)])
+        Tfin = mk_tree([KEEP, gm(b"sub"), (b"sub", "g", None)])
+        out.append(("submodule:leading-mixed", {"trees": [Tl, Tn], "cfg": {}, "steps": [_step("reset_hard", 0), _step("reset_mixed", 1), {"op": "submodule_update"}]}))
+        out.append(("submodule:leading-soft", {"trees": [Tl, Tn], "cfg": {}, "steps": [_step("reset_hard", 0), _step("reset_soft", 1), {"op": "submodule_update", "force": 1}]}))
+        out.append(("submodule:leading-flat", {"trees": [Tflat], "cfg": {}, "steps": [_step("reset_hard", 0), {"op": "submodule_update"}]}))
+        out.append(("submodule:final-mixed", {"trees": [Tfin_l, Tfin], "cfg": {}, "steps": [_step("reset_hard", 0), _step("reset_mixed", 1), {"op": "submodule_update"}]}))
+    Tok = mk_tree([KEEP, gm(b"sub"), (b"sub", "g", None)])
+    out.append(("submodule:benign", {"trees": [Tok], "cfg": {}, "steps": [_step("reset_hard", 0), {"op": "submodule_update"}]}))
+    for U in (b".git/modules-x", b"../outside_dir/sm", b".GIT/x", b"git~1"):
+        Tu = mk_tree([KEEP, gm(U), (U, "g", None)])
+        out.append(("submodule:unsafe-name", {"trees": [mk_tree([KEEP, gm(U)]), Tu], "cfg": {}, "steps": [_step("reset_hard", 0), _step("reset_mixed", 1), {"op": "submodule_update"}]}))
+    return out
+
+
 def sparse_scenarios():
     """sparse checkout materialises / removes INDEX paths: hostile index contents (reset --mixed does not validate
     names) and a leading symlink on disk."""
@@ -1609,11 +1864,63 @@ def sparse_scenarios():
     return out
 
 
+def unchanged_route_scenarios():
+    """Entries that reach update_working_tree's write loop as UNCHANGED: the unsafe path is already in the index (a
+    mixed reset copies tree names unvalidated), the target tree of the following reset --hard is the SAME tree, and the
+    file is absent on disk.  Every hostile-name family, as nested trees (so that index tree == target tree) and flat,
+    under every protection setting; packed trees (always run) and one name per tree."""
+    out = []
+    T0 = mk_tree([KEEP])
+    cfgs = [{}, {"protectNTFS": False}, {"protectHFS": True}, {"protectNTFS": False, "protectHFS": True}]
+    names = [U for U in UNSAFE_NAMES if U and b"/" not in U]
+    packs = {
+        "dirs": [KEEP] + [(U + b"/hooks/pwn", "f", b"#!/bin/sh\n", 0o100755) for U in names if U not in (b".", b"..")],
+        "blobs": [KEEP] + [(b"sub/" + U, "f", b"blob at unsafe name\n") for U in names if U not in (b".", b"..")],
+        "dots": [KEEP, (b"../outside_dir/pwn", "f", b"pwned\n"), (b"d/../../outside_dir/pwn2", "f", b"pwned\n"), (b"../pwn3", "f", b"pwned\n"),
+                 (b"a/b/../../../outside_dir/pwn4", "f", b"pwned\n"), (b"./dot", "f", b"x\n")],
+        "git": [KEEP, (b".git/hooks/pre-commit", "f", b"#!/bin/sh\necho pwned\n", 0o100755), (b".git/canary", "f", b"pwned\n"),
+                (b"d/.git/config", "f", b"[core]\n")],
+        "links": [KEEP, (b".git/hooks/l", "l", b"../../x"), (b"../outside_dir/l", "l", b"x"), (b".GIT", "l", b".git")],
+        "gitlinks": [KEEP, (b"../outside_dir/gl", "g", None), (b".git/gl", "g", None), (b".Git/gl", "g", None)],
+    }
+    for ci, cfg in enumerate(cfgs):
+        for pn, items in packs.items():
+            out.append((f"unchanged:pack:{pn}", {"trees": [T0, mk_tree(items)], "cfg": cfg,
+                                                "steps": [_step("reset_hard", 0), _step("reset_mixed", 1), _step("reset_hard", 1)]}))
+            if ci < 2 and pn in ("dirs", "dots", "git"):
+                # the same packed hostile trees straight through every entry point that materialises a tree
+                for op in ("clone", "checkout_force", "build_index", "stash_pop", "patch_to", "am", "merge", "cherry_pick", "restore", "pull_force"):
+                    steps = [_step(op, 1)] if op == "clone" else ([_step("clone", 0), _step(op, 1)] if op == "pull_force" and not cfg
+                                                                  else [_step("reset_hard", 0), _step(op if op != "pull_force" else "reset_hard", 1)])
+                    out.append((f"unchanged:pack:{pn}:{op}", {"trees": [T0, mk_tree(items)], "cfg": {} if op == "clone" else cfg, "steps": steps}))
+        singles = [(U + b"/hooks/pwn", "f", b"x\n") for U in names] + [(b"sub/" + U, "f", b"x\n") for U in names] + \
+                  [(b"d/" + U + b"/config", "f", b"x\n") for U in names] + [(R.lstrip(b"/") if False else R, "f", b"raw\n") for R in RAW_NAMES]
+        for it in singles:
+            out.append((f"unchanged:one:{effective_v(cfg)}", {"trees": [T0, mk_tree([KEEP, it])], "cfg": cfg,
+                                                             "steps": [_step("reset_hard", 0), _step("reset_mixed", 1), _step("reset_hard", 1)]}))
+            if ci == 0:
+                # the same names as FLAT entries (index tree != target tree: arrives as add/delete instead)
+                out.append(("unchanged:flat", {"trees": [T0, [E_blob(b"keep", b"keep\n"), E_blob(it[0], b"x\n")]], "cfg": cfg,
+                                               "steps": [_step("reset_hard", 0), _step("reset_mixed", 1), _step("reset_hard", 1)]}))
+    return out
+
+
 FIRST_OPS = ["clone", "reset_hard", "checkout", "checkout_force", "build_index", "stash_pop", "clone_nc"]
-NEXT_OPS = ["reset_hard", "checkout", "checkout_force", "build_index", "stash_pop", "reset_mixed", "reset_soft", "patch_to", "pull_force"]
+NEXT_OPS = ["reset_hard", "checkout", "checkout_force", "build_index", "stash_pop", "reset_mixed", "reset_soft", "patch_to", "pull_force",
+            "merge", "merge_side", "cherry_pick", "revert", "am", "restore", "stash_push", "stash_pop_real"]
 
 
-def _step(op: str, t: int, i=None) -> dict:
+def _step(op: str, t, i=None) -> dict:
+    if op == "merge_side":
+        return {"op": "merge", "t": t, "side": 1}
+    if op == "user_rm":
+        return {"op": "user", "set": [[t.hex(), "rm", ""]]}
+    if op == "user_edit":
+        return {"op": "user", "set": [[t.hex(), "file", b"edited by the user\n".hex()]]}
+    if op == "user_add":
+        return {"op": "user", "set": [[t.hex(), "file", b"added by the user\n".hex()]], "stage": [t.hex()]}
+    if op == "user_link":
+        return {"op": "user", "set": [[t.hex(), "link", b"../outside_dir".hex()]]}
     if op == "pull_force":
         return {"op": "pull", "t": t, "force": 1}
     if op == "checkout_paths":
@@ -1663,6 +1970,20 @@ def fixed_scenarios():
             # ADD d precedes DELETE d/x in the change list
             [("clone_nc", 1), ("checkout_force", 0)], [("clone_nc", 1), ("checkout", 0)], [("clone_nc", 1), ("reset_hard", 0)],
             [("reset_hard", 3), ("reset_soft", 1), ("checkout_force", 0)], [("reset_hard", 3), ("reset_mixed", 1), ("reset_hard", 0)],
+            # a REAL stash round trip around a switch in which d becomes a symlink (the stashed change lies below d)
+            [("reset_hard", 1), ("user_rm", b"d/x"), ("stash_push", 0), ("checkout_force", 0), ("stash_pop_real", 0)],
+            [("reset_hard", 1), ("user_edit", b"d/x"), ("stash_push", 0), ("reset_hard", 0), ("stash_pop_real", 0)],
+            [("reset_hard", 1), ("user_edit", b"d/sub/y"), ("stash_push", 0), ("reset_hard", 3), ("user_link", b"d"), ("stash_pop_real", 0)],
+            [("reset_hard", 1), ("user_add", b"d/hooks/new"), ("stash_push", 0), ("reset_hard", 0), ("stash_pop_real", 0)],
+            # the other porcelain that materialises trees: merge (fast-forward and true merge), cherry-pick, revert, am, restore
+            [("reset_hard", 0), ("merge", 1)], [("reset_hard", 0), ("cherry_pick", 1)], [("reset_hard", 0), ("revert", 1)],
+            [("reset_hard", 0), ("am", 1)], [("reset_hard", 0), ("restore", 1)], [("reset_hard", 0), ("merge_side", 1)],
+            [("reset_hard", 0), ("reset_mixed", 3), ("merge", 1)], [("reset_hard", 0), ("reset_mixed", 3), ("cherry_pick", 1)],
+            [("reset_hard", 0), ("reset_soft", 3), ("revert", 1)], [("reset_hard", 0), ("reset_mixed", 3), ("am", 1)],
+            [("reset_hard", 0), ("reset_mixed", 1), ("restore", 1)], [("reset_hard", 0), ("reset_mixed", 1), ("merge", 3)],
+            [("reset_hard", 0), ("reset_mixed", 1), ("cherry_pick", 3)], [("reset_hard", 0), ("reset_soft", 1), ("revert", 3)],
+            [("reset_hard", 1), ("merge", 6)], [("reset_hard", 1), ("cherry_pick", 5)], [("reset_hard", 1), ("revert", 6)], [("reset_hard", 1), ("am", 6)],
+            [("reset_hard", 3), ("merge", 4)], [("reset_hard", 3), ("cherry_pick", 4)], [("reset_hard", 3), ("am", 4)], [("reset_hard", 3), ("restore", 4)],
             # aborted update (later invalid entry) then another
             [("reset_hard", 1), ("reset_hard", 4), ("reset_hard", 3)], [("checkout", 1), ("checkout_force", 4), ("checkout_force", 3)],
             # symlink then regular file of the same name (the file must replace the link, not be written through it)
@@ -1709,6 +2030,8 @@ def fixed_scenarios():
     out += rc_patch_scenarios()
     out += kind_collision_scenarios()
     out += sparse_scenarios()
+    out += unchanged_route_scenarios()
+    out += submodule_scenarios()
     for m in MODES:
         spec = [E_blob(b"keep"), E_blob(b"f", b"x\n", m), E_tree(b"d", [E_blob(b"g", b"y\n", m)])]
         for op in ("clone", "reset_hard", "build_index", "stash_pop", "patch_to"):
@@ -2131,10 +2454,10 @@ def _stream_sequences(ctx, scale=1, full=False, stream_prefix="seq"):
             # quick tier: every template for the key link targets, a seed-dependent third of the rest
             fixed = [(t, c) for t, c in fixed
                      if (t.split(":", 1)[0] in ("collide", "patch") and t.split(":", 1)[1].encode() in KEY_TARGETS)
-                     or t == "modes" or t.startswith("rcpatch:") and ":headers:" in t or t.startswith("sparse:")
+                     or t == "modes" or t.startswith("rcpatch:") and ":headers:" in t or t.startswith("sparse:") or t.startswith("unchanged:pack:") or t.startswith("submodule:")
                      or (t.startswith("kinds:") and "gitlink" in t and t.endswith((":p:mixed", ":p:soft")))
                      or (t.startswith("kinds:leading") and ctx.rng.random() < 0.25)
-                     or ctx.rng.random() < (0.04 if t.startswith("kinds:") else 0.2)]
+                     or ctx.rng.random() < (0.04 if t.startswith("kinds:") else 0.08 if t.startswith("unchanged:") else 0.2)]
         ctx.extra_cov["fixed_scenarios_run"] = len(fixed)
         for tag, case in fixed:
             run_scenario(ctx, w, stream_prefix + ".fixed", case, tag.split(":")[0], n)
